@@ -23,8 +23,8 @@
    (core.read_col) takes the labels from each dictionary page in turn, so the codes of earlier row
    groups are finally interpreted with the LAST dictionary.                                       *)
 From Coq Require Import NArith Arith List Bool.
-From Pq Require Import Base.Bytes Impl.KV Dataset.Append Dataset.FS Dataset.FsPaths Dataset.Crash Dataset.Ops
-  Proofs.AppendProofs Proofs.CrashProofs Proofs.OpsProofs.
+From Pq Require Import Base.Bytes Impl.KV Dataset.Append Dataset.FS Dataset.FsPaths Dataset.Crash Dataset.Ops Dataset.CatRead
+  Proofs.AppendProofs Proofs.CrashProofs Proofs.OpsProofs Proofs.CatReadProofs.
 Import ListNotations.
 
 Theorem C07_simple_prefix : forall file chunks footer' file' loc,
@@ -100,6 +100,23 @@ Theorem C07_rows_multi :
     /\ refs_of parse_md (run_trace tr s) = Some (refs ++ new_paths off rgs).
 Proof. exact append_rows_multi. Qed.
 Print Assumptions C07_rows_multi.
+
+(* categorical columns (Dataset/CatRead.v: ONE label list for the whole output column, replaced by
+   every dictionary page read; codes copied as they are).
+   Full statement wanted by the property:  forall init chunks, read_cat init chunks = expected_cat chunks.
+   It is FALSE on the faithful model of today's reader (refuted below; finding C07-categorical-relabel,
+   the model's wrong output is compared with the real wrong output on every run); what holds is the
+   partial statement for appends that keep the category list. *)
+Theorem C07_categorical_same_labels_partial : forall d init chunks,
+  Forall (fun ch => fst ch = Some d) chunks -> read_cat init chunks = expected_cat chunks.
+Proof. exact read_cat_same_labels. Qed.
+Print Assumptions C07_categorical_same_labels_partial.
+
+Theorem C07_categorical_relabel_refuted :
+  exists init chunks, read_cat init chunks <> expected_cat chunks
+    /\ (forall ch, In ch chunks -> exists d, fst ch = Some d /\ forall c, In (Some c) (snd ch) -> (c < length d)%nat).
+Proof. exact read_cat_relabel_refuted. Qed.
+Print Assumptions C07_categorical_relabel_refuted.
 
 (* non-vacuity: a 3-byte data region with one row group, two appends (1 and 2 row groups);
    footer = the descriptor list written as bytes (off, len pairs), parse = its inverse *)
